@@ -1,5 +1,8 @@
 import Refine.Lemmas.NodeIds
 import Refine.Lemmas.MeshOps
+import Refine.Lemmas.MeshOpsReal
+import Refine.Props.C14NodeCell
+import Mathlib.Tactic.Abel
 
 /-!
   C13 — every accepted local operation keeps the mesh valid around the touched vertices; a rejected attempt
@@ -92,30 +95,7 @@ theorem split_ids_inherited (np : Nat) (n0 n1 new : Int) (c : Cell) (h : np ≤ 
 /-- with a fresh `new` (not a vertex of the cell) the C's "undo" (`new ↦ node0`) restores the cell, so the
     node1 version is plainly `node1 ↦ new` -/
 theorem splitV1_fresh (np : Nat) (n0 n1 new : Int) (c : Cell) (hf : new ∉ nodesOf np c) :
-    splitV1 np n0 n1 new c = subst np n1 new c := by
-  unfold splitV1
-  congr 1
-  unfold subst
-  have hl : ((c.take np).map fun v => if v = n0 then new else v).length = (c.take np).length := by simp
-  have htake : (((c.take np).map fun v => if v = n0 then new else v) ++ c.drop np).take np =
-      (c.take np).map fun v => if v = n0 then new else v := by
-    have := nodesOf_subst np n0 new c
-    simpa [nodesOf, subst] using this
-  have hdrop : (((c.take np).map fun v => if v = n0 then new else v) ++ c.drop np).drop np = c.drop np := by
-    rcases Nat.le_total np c.length with h | h
-    · exact drop_subst np n0 new c h
-    · have hd : c.drop np = [] := List.drop_of_length_le h
-      rw [hd, List.append_nil]
-      apply List.drop_of_length_le
-      simp [List.length_take]; omega
-  rw [htake, hdrop, List.map_map]
-  conv => rhs; rw [← List.take_append_drop np c]
-  congr 1
-  conv => rhs; rw [← List.map_id (c.take np)]
-  apply List.map_congr_left
-  intro v hv
-  have hv' : v ≠ new := fun e => hf (by simpa [nodesOf, e] using hv)
-  by_cases h0 : v = n0 <;> simp [h0, hv']
+    splitV1 np n0 n1 new c = subst np n1 new c := Refine.Model.MeshOps.splitV1_fresh np n0 n1 new c hf
 
 /-! ## `ref_collapse_edge` -/
 
@@ -197,5 +177,101 @@ theorem collapseEdge_subst {m : Mesh} (h : NodeInv m.ids) (n0 n1 : Int) (hv : m.
       obtain ⟨⟨l, hcn, _, _⟩, _⟩ := h.free
       exact hcn.head_neg
     omega
+
+/-! ## exact-arithmetic volume of a split -/
+
+open Refine Refine.Model.Geom in
+/-- **split_vol**: for a tet without a repeated vertex on the split edge, `new` fresh and placed at
+    `(1-w)*x(n0) + w*x(n1)` (`ref_node_interpolate_edge`), in exact arithmetic: the two halves have `(1-w)` resp.
+    `w` times the volume, their sum is the old volume, and for `0 < w < 1` (the pass clamps `w` to `[0.05,0.95]`)
+    each half of a positive tet is positive -/
+theorem split_vol (xyz : Int → V3 ℝ) (n0 n1 new : Int) (w : ℝ) (v0 v1 v2 v3 : Int)
+    (hnd : [v0, v1, v2, v3].Nodup) (h0 : n0 ∈ [v0, v1, v2, v3]) (h1 : n1 ∈ [v0, v1, v2, v3]) (hne : n0 ≠ n1)
+    (hf : new ∉ [v0, v1, v2, v3]) (hx : xyz new = interpolateEdgeXyz (xyz n0) (xyz n1) w) :
+    rowVol xyz (splitV0 4 n0 new [v0, v1, v2, v3]) + rowVol xyz (splitV1 4 n0 n1 new [v0, v1, v2, v3]) =
+      rowVol xyz [v0, v1, v2, v3] ∧
+    (0 < w → w < 1 → 0 < rowVol xyz [v0, v1, v2, v3] →
+      0 < rowVol xyz (splitV0 4 n0 new [v0, v1, v2, v3]) ∧
+      0 < rowVol xyz (splitV1 4 n0 n1 new [v0, v1, v2, v3])) := by
+  obtain ⟨e0, e1⟩ := split_vol_cell xyz n0 n1 new w v0 v1 v2 v3 hnd h0 h1 hne hf hx
+  rw [e0, e1]
+  refine ⟨by ring, fun hw0 hw1 hv => ⟨?_, ?_⟩⟩
+  · exact mul_pos (by linarith) hv
+  · exact mul_pos hw0 hv
+
+/-! ## `ref_swap_tri_edge` -/
+
+/-- `ref_swap_tri_edge` when the edge has exactly the two triangles `t0`, `t1` and `ref_swap_node23` found the
+    opposite vertices: the two triangles are removed, `(n1,n2,n3)` and `(n0,n3,n2)` are added with the id of `t0`,
+    every other triangle, all tets and all edgs are untouched -/
+theorem swapTriEdge_spec (g : Groups) (n0 n1 n2 n3 : Int) (t0 t1 : Cell)
+    (hl : g.tri.filter (has2 3 n0 n1) = [t0, t1]) (hn : swapNode23 g.tri n0 n1 = (.ok, n2, n3)) :
+    swapTriEdge g n0 n1 = (.ok, { g with tri :=
+      [n1, n2, n3, t0.getD 3 (-1)] :: [n0, n3, n2, t0.getD 3 (-1)] :: (g.tri.erase t0).erase t1 }) := by
+  simp [swapTriEdge, hn, listWith2, hl]
+
+/-- id preserved: when `ref_swap_same_faceid` allows the swap of an edge with two triangles, both carry the same
+    id (so both new triangles carry the id of both old ones) -/
+theorem sameFaceid_ids (g : Groups) (n0 n1 : Int) (t0 t1 : Cell)
+    (hl : g.tri.filter (has2 3 n0 n1) = [t0, t1]) (ha : sameFaceid g n0 n1 = (.ok, true)) :
+    t0.getD 3 (-1) = t1.getD 3 (-1) := by
+  unfold sameFaceid at ha
+  split at ha
+  · simp at ha
+  · simp only [listWith2, hl, List.length_cons, List.length_nil] at ha
+    simpa using ha
+
+/-- boundary of a triangle `(a,b,c)` under an edge functional -/
+def triBoundary {G : Type} [AddCommGroup G] (φ : Int → Int → G) (a b c : Int) : G := φ a b + φ b c + φ c a
+
+/-- the boundary does not depend on which vertex the row starts with -/
+theorem triBoundary_rot {G : Type} [AddCommGroup G] (φ : Int → Int → G) (a b c : Int) :
+    triBoundary φ b c a = triBoundary φ a b c := by simp only [triBoundary]; abel
+
+/-- **swapTri_conforming**: for every antisymmetric edge functional into an abelian group the signed boundary
+    chain of the two new triangles equals that of the two old ones (the diagonal cancels in both pairs) -/
+theorem swapTri_conforming {G : Type} [AddCommGroup G] (φ : Int → Int → G) (hanti : ∀ a b, φ b a = -φ a b)
+    (n0 n1 n2 n3 : Int) :
+    triBoundary φ n0 n3 n2 + triBoundary φ n1 n2 n3 = triBoundary φ n0 n1 n2 + triBoundary φ n1 n0 n3 := by
+  simp only [triBoundary, hanti n0 n1, hanti n2 n3]
+  abel
+
+open Refine Refine.Model.Geom Refine.ScalarReal in
+/-- **swapTri_area**: the signed area (z component of `ref_node_tri_normal`, the quantity whose sign
+    `localValid` tests in 2-D) of the two new triangles adds up to that of the two old ones, in exact arithmetic -/
+theorem swapTri_area (a b c d : V3 ℝ) :
+    (triNormal a d c).z + (triNormal b c d).z = (triNormal a b c).z + (triNormal b a d).z := by
+  simp only [triNormal, cross, V3.sub, sub_eq, mul_eq]
+  ring
+
+/-! ## non-vacuity -/
+
+/-- an edge star: three tets around the edge (0,2) closed by ring vertices 3,4,5 would need six vertices; here
+    two tets on the edge (0,2), two boundary triangles and an edg on it, over the id state `exState` of
+    C14NodeCell (slots 0 and 2 live, global 1 on the unused list, slot 1 free) -/
+def exGroups : Groups := ⟨[[0, 2, 3, 4], [2, 0, 3, 5], [3, 4, 5, 6]], [[0, 2, 4, 7], [2, 0, 5, 7], [3, 4, 5, 9]], [[0, 2, 11]]⟩
+def exMesh : Mesh := ⟨Refine.Props.C14NodeCell.exState, exGroups⟩
+
+/-- hypotheses of `trialFrame_reject_no_trace` are met by `exMesh`; here even the concrete state is restored -/
+example : NodeInv exMesh.ids ∧ PoolInv exMesh.ids ∧
+    (trialFrame exMesh 0 2 .rejectChecks).2.2.2 = exMesh ∧ (trialFrame exMesh 0 2 .rejectCavity).2.2.1 = 1 :=
+  ⟨Refine.Props.C14NodeCell.node_inv_all_sequences [.add 0, .add 1, .add 2, .initNGlobal 3, .remove 1],
+   Refine.Props.C14NodeCell.exState_pool, by decide, by decide⟩
+
+/-- the accepted path on `exMesh`: the trial vertex gets the pooled global 1 and the freed slot 1, every cell on
+    the edge (0,2) is split, ids 7 and 11 are inherited, the other cells are untouched -/
+example : (trialFrame exMesh 0 2 .split).2.1 = true ∧ (trialFrame exMesh 0 2 .split).2.2.1 = 1 ∧
+    (trialFrame exMesh 0 2 .split).2.2.2.g.tet.Perm [[1, 2, 3, 4], [0, 1, 3, 4], [2, 1, 3, 5], [1, 0, 3, 5], [3, 4, 5, 6]] ∧
+    (trialFrame exMesh 0 2 .split).2.2.2.g.edg.Perm [[0, 1, 11], [1, 2, 11]] := by
+  refine ⟨by decide, by decide, ?_, ?_⟩ <;> decide
+
+/-- `splitEdge_spec` / `collapseEdge_subst` / `swapTriEdge_spec` hypotheses on concrete states -/
+example : (exGroups.tet.filter (has2 4 0 2)).length = 2 ∧ (collapseEdge exMesh 0 2).1 = .ok ∧
+    (collapseEdge exMesh 0 2).2.g.tet = [[3, 4, 5, 6]] ∧ (collapseEdge exMesh 0 2).2.ids.unusedStk = [2, 1] := by
+  decide
+
+def exTris : Groups := ⟨[], [[5, 6, 7, 1], [6, 5, 8, 1], [7, 6, 9, 1]], []⟩
+example : swapNode23 exTris.tri 5 6 = (.ok, 7, 8) ∧ sameFaceid exTris 5 6 = (.ok, true) ∧
+    (swapTriEdge exTris 5 6).2.tri = [[6, 7, 8, 1], [5, 8, 7, 1], [7, 6, 9, 1]] := by decide
 
 end Refine.Props.C13
